@@ -332,15 +332,19 @@ def bProperty (c : Ctx) (np : List Str) (inOneof : Bool) (number : Nat) : Proper
   | .mk name required explicitlyOptional schema =>
     let defName := toCamel name
     match schema with
-    | .map items _ =>
+    | .map items mrules =>
       let item := bField c np defName items
       match item.res with
       | none => { eff := item.eff ++ Eff.err }
       | some r =>
         let entryName := mapName (toSnake name)
-        finishProperty name required explicitlyOptional number inOneof item.eff
+        -- `fix: d9448b1`: like an array, the map field carries `(j5.ext.v1.field).map` and, when
+        -- the value has a `(buf.validate.field)` or the map has rules, `map` rules wrapping it
+        let hv := r.hasValidate || !mrules.isEmpty
+        let eff := item.eff ++ j5Ext ++ validateWithImport hv
+        finishProperty name required explicitlyOptional number inOneof eff
           [mkEntry entryName r]
-          { type := .message, typeName := entryName } true
+          { type := .message, typeName := entryName, ext := b!"map", hasValidate := hv } true
     | .array items arules =>
       let item := bField c np defName items
       match item.res with
